@@ -154,6 +154,16 @@ func (o OpenOpts) K(cfg *RunCfg) klevdb.Options {
 	return opts
 }
 
+// maxBody: key and value of a message together may not exceed 64 MiB (documented limit of the
+// record format; the writers refuse more).
+const maxBody = 64 << 20
+
+// pubRefused reports whether the publish of the current step was refused.
+func (r *Run) pubRefused() bool {
+	v, ok := r.Ctx["pub_refused"].(int)
+	return ok && v == r.Step
+}
+
 type panicErr struct {
 	v     any
 	stack string
@@ -349,8 +359,13 @@ func (r *Run) resolveMsgs(pm []PMsg) ([]klevdb.Message, []Msg) {
 			maxUS = us
 		}
 		has = true
-		ks[i] = klevdb.Message{Offset: p.Junk, Time: t, Key: p.Key, Value: p.Val}
-		ms[i] = Msg{US: us, Key: p.Key, Val: p.Val}
+		val := p.Val
+		if p.Pad > 0 {
+			val = make([]byte, int64(len(p.Val))+p.Pad)
+			copy(val, p.Val)
+		}
+		ks[i] = klevdb.Message{Offset: p.Junk, Time: t, Key: p.Key, Value: val}
+		ms[i] = Msg{US: us, Key: p.Key, Val: val}
 	}
 	return ks, ms
 }
@@ -447,6 +462,15 @@ func (r *Run) execOp(op *Op) {
 			r.H.OnPublish(r, before, ks, ret, err)
 		}
 		if err != nil {
+			for _, k := range ks {
+				if len(k.Key)+len(k.Value) > maxBody {
+					// a batch with a message beyond the size the writers accept is refused: as a
+					// whole, nothing of it may ever show (the model stays as it is)
+					r.probe("publish_refused_oversized")
+					r.Ctx["pub_refused"] = r.Step
+					return
+				}
+			}
 			r.unexpected("Publish", err)
 			return
 		}
